@@ -25,6 +25,8 @@ int p_nchildren;
 void (*p_kill_hook)(int pid, int sig);
 void (*p_exec_hook)(const char *file);
 void (*p_child_hook)(int pid);
+void (*p_delivery_hook)(int tid, int sig);
+void (*p_delivery_done_hook)(int tid, int sig);
 int p_fork_fail;
 
 static int next_pid = 200;
@@ -87,7 +89,11 @@ static int deliver_one(int t)
 	update_flags();
 	p_deliveries++;
 	sx_note("signal-handler-enter", sig);
+	if (p_delivery_hook)
+		p_delivery_hook(t, sig);
 	sa->handler(sig);
+	if (p_delivery_done_hook)
+		p_delivery_done_hook(t, sig);
 	p_sigmask[t] = old;
 	update_flags();
 	return 1;
